@@ -1,7 +1,7 @@
 (* NumFmt_proofs.v — proofs for property C10 (model and spec in NumFmt.v).
    Main results:
      scanner_agrees_with_grammar   detect (render a) = classify a  for every well-formed
-                                   derivation outside the known classes
+                                   derivation of the number-format grammar
      builtin_tables_agree          both built-in tables = the ECMA-376 list, all u16 codes
      date_iff_style_{xlsx,xls,xlsb} the style plumbing resolves formats as specified and the
                                    cell value is wrapped accordingly *)
@@ -34,9 +34,9 @@ Proof. intros l1 l2 q f H. rewrite run_app, H. reflexivity. Qed.
 Definition step' (q : st) (s : N) : step_result :=
   let '(mkSt e iq b p h a) := q in
   if e then Continue (mkSt false iq b s h a)
-  else if is_esc s then Continue (mkSt true iq b s h a)
   else if (s =? 34) && iq then Continue (mkSt e false b s h a)
   else if iq then Continue (mkSt e iq b s h a)
+  else if is_esc s then Continue (mkSt true iq b s h a)
   else if s =? 34 then Continue (mkSt e true b s h a)
   else if s =? 59 then Return Other
   else if s =? 91 then Continue (mkSt e iq (sat_inc b) s h a)
@@ -47,7 +47,8 @@ Definition step' (q : st) (s : N) : step_result :=
   else if is_date_letter s && negb a && (b =? 0) then Return DateTime
   else
     let h' := if h && eq_ignore_ascii_case s p then h else is_mhs s && (p =? 91) in
-    Continue (mkSt e iq b s h' a).
+    Continue (mkSt e iq b s h' false).
+
 
 Fixpoint run' (q : st) (l : list N) : step_result :=
   match l with
@@ -70,59 +71,53 @@ Proof.
   rewrite step_eq. destruct (step' q c); [apply IH|reflexivity].
 Qed.
 
-(* boundary state: outside quotes, escapes and brackets, hms clear; [a] is the ap flag *)
-Definition B (a : bool) (p : N) : st := mkSt false false 0 p false a.
-Definition bnd (a : bool) (q : st) : Prop := exists p, q = B a p.
 
-Lemma bnd_B : forall a p, bnd a (B a p).
-Proof. intros a p. exists p. reflexivity. Qed.
-#[global] Hint Resolve bnd_B : core.
+(* boundary state: outside quotes, escapes and brackets, hms and ap clear *)
+Definition B (p : N) : st := mkSt false false 0 p false false.
 
 (* ===================================================================================== *)
 (** * 2. Character-level lemmas *)
 
-(* --- escapes: \c and _c swallow any character --- *)
+(* --- escapes: \c, _c and the fill prefix *c swallow any character --- *)
 Lemma step_escaped : forall iq b p h a c,
   step (mkSt true iq b p h a) c = Continue (mkSt false iq b c h a).
 Proof. reflexivity. Qed.
 
-Lemma run_esc_pair : forall a p e c, is_esc e = true ->
-  run (B a p) [e; c] = Continue (B a c).
+Lemma step_B_esc : forall p e, is_esc e = true ->
+  step (B p) e = Continue (mkSt true false 0 e false false).
+Proof. intros p e He. unfold B, step. rewrite andb_false_r, He. reflexivity. Qed.
+
+Lemma run_esc_pair : forall p e c, is_esc e = true ->
+  run (B p) [e; c] = Continue (B c).
 Proof.
-  intros a p e c He. unfold B. cbn [run]. unfold step at 1. rewrite He.
-  rewrite step_escaped. reflexivity.
+  intros p e c He. cbn [run]. rewrite (step_B_esc p e He), step_escaped. reflexivity.
 Qed.
 
-(* --- quoted text --- *)
-Definition Q (a e : bool) (p : N) : st := mkSt e true 0 p false a.
+(* --- quoted text: nothing is special between the quotes --- *)
+Definition Q (p : N) : st := mkSt false true 0 p false false.
 
-Lemma run_quoted_body : forall a s e p, mem 34 s = false ->
-  exists p', run (Q a e p) s = Continue (Q a (esc_pending e s) p').
+Lemma run_quoted_body : forall s p, mem 34 s = false ->
+  exists p', run (Q p) s = Continue (Q p').
 Proof.
-  intros a s. induction s as [|c s IH]; intros e p Hs.
+  induction s as [|c s IH]; intros p Hs.
   - exists p. reflexivity.
   - unfold mem in Hs. cbn [existsb] in Hs. apply orb_false_iff in Hs. destruct Hs as [Hc Hs].
     rewrite N.eqb_sym in Hc.
-    cbn [run esc_pending]. unfold Q at 1, step.
-    destruct e.
-    + apply (IH false c Hs).
-    + destruct (is_esc c) eqn:Ec.
-      * apply (IH true c Hs).
-      * rewrite Hc. cbn [andb]. apply (IH false c Hs).
+    cbn [run]. unfold Q at 1, step. rewrite Hc. cbn [andb]. apply (IH c Hs).
 Qed.
 
-Lemma run_quoted : forall a p s, mem 34 s = false -> esc_pending false s = false ->
-  run (B a p) (34 :: s ++ [34]) = Continue (B a 34).
+Lemma run_quoted : forall p s, mem 34 s = false ->
+  run (B p) (34 :: s ++ [34]) = Continue (B 34).
 Proof.
-  intros a p s Hs He.
+  intros p s Hs.
   change (34 :: s ++ [34]) with ([34] ++ s ++ [34]).
-  rewrite run_app_continue with (q' := Q a false 34) by reflexivity.
-  destruct (run_quoted_body a s false 34 Hs) as [p' Hr].
-  rewrite (run_app_continue s [34] _ _ Hr). rewrite He. reflexivity.
+  rewrite run_app_continue with (q' := Q 34) by reflexivity.
+  destruct (run_quoted_body s 34 Hs) as [p' Hr].
+  rewrite (run_app_continue s [34] _ _ Hr). reflexivity.
 Qed.
 
 (* --- brackets --- *)
-Definition K (a h : bool) (p : N) : st := mkSt false false 1 p h a.
+Definition K (h : bool) (p : N) : st := mkSt false false 1 p h false.
 
 Definition hms_next (p : N) (h : bool) (c : N) : bool :=
   if h && eq_ignore_ascii_case c p then h else (p =? 91) && is_mhs c.
@@ -135,32 +130,32 @@ Fixpoint hms_after (p : N) (h : bool) (l : list N) : bool :=
 
 Definition no_special (l : list N) : bool := forallb (fun c => negb (bracket_special c)) l.
 
-Lemma step_bracket_inner : forall a h p c, bracket_special c = false ->
-  step (K a h p) c = Continue (K a (hms_next p h c) c).
+Lemma step_bracket_inner : forall h p c, bracket_special c = false ->
+  step (K h p) c = Continue (K (hms_next p h c) c).
 Proof.
-  intros a h p c Hc. unfold bracket_special, mem in Hc. cbn [existsb] in Hc.
+  intros h p c Hc. unfold bracket_special, mem in Hc. cbn [existsb] in Hc.
   unfold K, step, is_esc, mem. cbn [existsb].
   assert (H91 : (c =? 91) = false) by lia.
   assert (H93 : (c =? 93) = false) by lia.
   assert (H34 : (c =? 34) = false) by lia.
   assert (H92 : (c =? 92) = false) by lia.
   assert (H95 : (c =? 95) = false) by lia.
+  assert (H42 : (c =? 42) = false) by lia.
   assert (H59 : (c =? 59) = false) by lia.
-  rewrite H91, H93, H34, H92, H95, H59. cbn [orb andb].
+  rewrite H91, H93, H34, H92, H95, H42, H59. cbn [orb andb].
   replace (1 =? 0) with false by reflexivity.
   rewrite !andb_false_r. reflexivity.
 Qed.
 
-Lemma run_bracket_inner : forall a l h p, no_special l = true ->
-  exists p', run (K a h p) l = Continue (K a (hms_after p h l) p').
+Lemma run_bracket_inner : forall l h p, no_special l = true ->
+  exists p', run (K h p) l = Continue (K (hms_after p h l) p').
 Proof.
-  intros a l. induction l as [|c l IH]; intros h p Hl; [exists p; reflexivity|].
+  intros l. induction l as [|c l IH]; intros h p Hl; [exists p; reflexivity|].
   unfold no_special in Hl. cbn [forallb] in Hl. apply andb_true_iff in Hl. destruct Hl as [Hc Hl].
   apply negb_true_iff in Hc.
-  cbn [run hms_after]. rewrite (step_bracket_inner a h p c Hc). apply (IH _ _ Hl).
+  cbn [run hms_after]. rewrite (step_bracket_inner h p c Hc). apply (IH _ _ Hl).
 Qed.
 
-(* an elapsed-time bracket: a run of one of m/h/s in either case *)
 Definition elapsed_form (l : list N) : bool :=
   match l with
   | [] => false
@@ -221,24 +216,24 @@ Proof.
   apply hms_after_chain; [exact Hc1|exact Hr|reflexivity].
 Qed.
 
-Lemma run_bracket_token : forall a p c1 rest, no_special (c1 :: rest) = true ->
-  run (B a p) (91 :: (c1 :: rest) ++ [93]) =
-    if elapsed_form (c1 :: rest) then Return TimeDelta else Continue (B a 93).
+Lemma run_bracket_token : forall p c1 rest, no_special (c1 :: rest) = true ->
+  run (B p) (91 :: (c1 :: rest) ++ [93]) =
+    if elapsed_form (c1 :: rest) then Return TimeDelta else Continue (B 93).
 Proof.
-  intros a p c1 rest H.
+  intros p c1 rest H.
   change (91 :: (c1 :: rest) ++ [93]) with ([91] ++ (c1 :: rest) ++ [93]).
-  rewrite run_app_continue with (q' := K a false 91) by reflexivity.
-  destruct (run_bracket_inner a (c1 :: rest) false 91 H) as [p' Hr].
+  rewrite run_app_continue with (q' := K false 91) by reflexivity.
+  destruct (run_bracket_inner (c1 :: rest) false 91 H) as [p' Hr].
   rewrite (run_app_continue _ [93] _ _ Hr).
   rewrite hms_after_bracket by assumption.
   destruct (elapsed_form (c1 :: rest)); reflexivity.
 Qed.
 
-(* --- characters the scanner ignores at a boundary, whatever the ap flag --- *)
-Lemma step_inert_char : forall a p c, fill_significant c = false ->
-  step (B a p) c = Continue (B a c).
+(* --- characters the scanner ignores at a boundary --- *)
+Lemma step_inert_char : forall p c, significant c = false ->
+  step (B p) c = Continue (B c).
 Proof.
-  intros a p c H. unfold fill_significant, mem in H. cbn [existsb] in H.
+  intros p c H. unfold significant, mem in H. cbn [existsb] in H.
   unfold B, step, is_esc, is_a, is_pm_slash, is_date_letter, is_mhs, mem. cbn [existsb].
   repeat match goal with
          | |- context [c =? ?k] => replace (c =? k) with false by lia
@@ -246,17 +241,17 @@ Proof.
   cbn [orb andb]. rewrite andb_false_r. reflexivity.
 Qed.
 
-Definition inert_list (l : list N) : bool := forallb (fun c => negb (fill_significant c)) l.
+Definition inert_list (l : list N) : bool := forallb (fun c => negb (significant c)) l.
 
-Lemma run_inert_list : forall l a p, inert_list l = true ->
-  exists p', run (B a p) l = Continue (B a p').
+Lemma run_inert_list : forall l p, inert_list l = true ->
+  exists p', run (B p) l = Continue (B p').
 Proof.
-  induction l as [|c l IH]; intros a p H; [exists p; reflexivity|].
+  induction l as [|c l IH]; intros p H; [exists p; reflexivity|].
   unfold inert_list in H. cbn [forallb] in H. apply andb_true_iff in H. destruct H as [Hc Hl].
-  apply negb_true_iff in Hc. cbn [run]. rewrite (step_inert_char a p c Hc). apply (IH a c Hl).
+  apply negb_true_iff in Hc. cbn [run]. rewrite (step_inert_char p c Hc). apply (IH c Hl).
 Qed.
 
-Lemma inert_list_repeat : forall c n, fill_significant c = false -> inert_list (repeat c n) = true.
+Lemma inert_list_repeat : forall c n, significant c = false -> inert_list (repeat c n) = true.
 Proof.
   intros c n H. induction n as [|n IH]; [reflexivity|].
   unfold inert_list in *. cbn [repeat forallb]. rewrite H, IH. reflexivity.
@@ -329,6 +324,7 @@ Proof. intros c. unfold is_hex, is_digit, bracket_special, mem. cbn [existsb]. l
 Lemma numchar_not_special : forall c, is_numchar c = true -> negb (bracket_special c) = true.
 Proof. intros c. unfold is_numchar, is_digit, bracket_special, mem. cbn [existsb]. lia. Qed.
 
+
 (* ===================================================================================== *)
 (** * 3. Token-level lemmas *)
 
@@ -392,12 +388,12 @@ Proof.
   - apply elapsed_form_first. reflexivity.
 Qed.
 
-Lemma run_prefix_bracket : forall t a p c1 rest,
+Lemma run_prefix_bracket : forall t p c1 rest,
   bracket_content t = c1 :: rest -> no_special (c1 :: rest) = true ->
   elapsed_form (c1 :: rest) = false ->
-  run (B a p) (91 :: bracket_content t ++ [93]) = Continue (B a 93).
+  run (B p) (91 :: bracket_content t ++ [93]) = Continue (B 93).
 Proof.
-  intros t a p c1 rest E Hns Hel. rewrite E, run_bracket_token by exact Hns. rewrite Hel. reflexivity.
+  intros t p c1 rest E Hns Hel. rewrite E, run_bracket_token by exact Hns. rewrite Hel. reflexivity.
 Qed.
 
 (* elapsed tokens *)
@@ -426,95 +422,81 @@ Proof.
       unfold eq_ignore_ascii_case. rewrite lower_recase1, Hx. apply N.eqb_refl.
 Qed.
 
-Lemma run_elapsed : forall l n ups a p,
-  run (B a p) (render_tok (TElapsed l n ups)) = Return TimeDelta.
+Lemma run_elapsed : forall l n ups p,
+  run (B p) (render_tok (TElapsed l n ups)) = Return TimeDelta.
 Proof.
-  intros l n ups a p. destruct (elapsed_content l n ups) as (c1 & rest & E & Hns & Hel).
+  intros l n ups p. destruct (elapsed_content l n ups) as (c1 & rest & E & Hns & Hel).
   cbn [render_tok]. rewrite E, run_bracket_token by exact Hns. rewrite Hel. reflexivity.
 Qed.
 
 (* date tokens *)
-Lemma run_date : forall l n ups a p, (a = false \/ l = LM) ->
-  forall tail, run (B a p) (render_tok (TDate l n ups) ++ tail) = Return DateTime.
+Lemma run_date : forall l n ups p tail,
+  run (B p) (render_tok (TDate l n ups) ++ tail) = Return DateTime.
 Proof.
-  intros l n ups a p H tail. cbn [render_tok repeat]. rewrite recase_cons. cbn [app run].
-  assert (E : step (B a p) (recase1 (hd false ups) (dletter_char l)) = Return DateTime).
-  { rewrite step_eq. destruct H as [-> | ->].
-    - destruct l, (hd false ups); vm_compute; reflexivity.
-    - destruct a, (hd false ups); vm_compute; reflexivity. }
+  intros l n ups p tail. cbn [render_tok repeat]. rewrite recase_cons. cbn [app run].
+  assert (E : step (B p) (recase1 (hd false ups) (dletter_char l)) = Return DateTime).
+  { rewrite step_eq. destruct l, (hd false ups); vm_compute; reflexivity. }
   rewrite E. reflexivity.
 Qed.
 
-Lemma run_ampm : forall ups a p tail,
-  run (B a p) (render_tok (TAmPm ups) ++ tail) = Return DateTime.
+Lemma run_ampm : forall ups p tail,
+  run (B p) (render_tok (TAmPm ups) ++ tail) = Return DateTime.
 Proof.
-  intros ups a p tail. cbn [render_tok]. unfold w_ampm. rewrite 2!recase_cons.
+  intros ups p tail. cbn [render_tok]. unfold w_ampm. rewrite 2!recase_cons.
   match goal with |- run _ ((?c1 :: ?c2 :: ?r) ++ tail) = _ =>
     change ((c1 :: c2 :: r) ++ tail) with ([c1; c2] ++ (r ++ tail)) end.
   apply run_app_return. rewrite run_eq.
-  destruct a, (hd false ups), (hd false (tl ups)); vm_compute; reflexivity.
+  destruct (hd false ups), (hd false (tl ups)); vm_compute; reflexivity.
 Qed.
 
-Lemma run_ap : forall ups a p tail,
-  run (B a p) (render_tok (TAP ups) ++ tail) = Return DateTime.
+Lemma run_ap : forall ups p tail,
+  run (B p) (render_tok (TAP ups) ++ tail) = Return DateTime.
 Proof.
-  intros ups a p tail. cbn [render_tok]. unfold w_ap. rewrite 2!recase_cons.
+  intros ups p tail. cbn [render_tok]. unfold w_ap. rewrite 2!recase_cons.
   match goal with |- run _ ((?c1 :: ?c2 :: ?r) ++ tail) = _ =>
     change ((c1 :: c2 :: r) ++ tail) with ([c1; c2] ++ (r ++ tail)) end.
   apply run_app_return. rewrite run_eq.
-  destruct a, (hd false ups), (hd false (tl ups)); vm_compute; reflexivity.
+  destruct (hd false ups), (hd false (tl ups)); vm_compute; reflexivity.
 Qed.
 
-(* General: seven letters in any casing; afterwards ap is set *)
-Lemma run_general : forall ups a p,
-  exists p', run (B a p) (render_tok (TGeneral ups)) = Continue (B true p').
+(* General: seven letters in any casing; the 'a' sets ap, the 'l' clears it again *)
+Lemma run_general : forall ups p,
+  exists p', run (B p) (render_tok (TGeneral ups)) = Continue (B p').
 Proof.
-  intros ups a p. cbn [render_tok]. unfold w_general. rewrite !recase_cons, recase_nil.
+  intros ups p. cbn [render_tok]. unfold w_general. rewrite !recase_cons, recase_nil.
   rewrite run_eq.
-  destruct a, (hd false ups), (hd false (tl ups)), (hd false (tl (tl ups))),
+  destruct (hd false ups), (hd false (tl ups)), (hd false (tl (tl ups))),
     (hd false (tl (tl (tl ups)))), (hd false (tl (tl (tl (tl ups))))),
     (hd false (tl (tl (tl (tl (tl ups)))))), (hd false (tl (tl (tl (tl (tl (tl ups)))))));
     vm_compute; eexists; reflexivity.
 Qed.
 
-Lemma run_exp : forall ups plus a p,
-  exists p', run (B a p) (render_tok (TExp ups plus)) = Continue (B a p').
+Lemma run_exp : forall ups plus p,
+  exists p', run (B p) (render_tok (TExp ups plus)) = Continue (B p').
 Proof.
-  intros ups plus a p. cbn [render_tok]. rewrite recase_cons, recase_nil. cbn [app].
+  intros ups plus p. cbn [render_tok]. rewrite recase_cons, recase_nil. cbn [app].
   apply run_inert_list. destruct (hd false ups), plus; reflexivity.
 Qed.
 
-Lemma lit_not_significant : forall c, mem c lit_chars = true -> c <> 47 -> fill_significant c = false.
+Lemma lit_not_significant : forall c, mem c lit_chars = true -> c <> 47 -> significant c = false.
 Proof.
   intros c H Hc. unfold lit_chars, mem in H. cbn [existsb] in H.
-  unfold fill_significant, mem. cbn [existsb]. lia.
+  unfold significant, mem. cbn [existsb]. lia.
 Qed.
 
-Lemma run_lit : forall c a p, mem c lit_chars = true -> a && (c =? 47) = false ->
-  run (B a p) [c] = Continue (B a c).
+Lemma run_lit : forall c p, mem c lit_chars = true -> run (B p) [c] = Continue (B c).
 Proof.
-  intros c a p H Hk. cbn [run]. destruct (N.eq_dec c 47) as [->|Hc].
-  - destruct a; [discriminate|]. rewrite step_eq. vm_compute. reflexivity.
-  - rewrite (step_inert_char a p c (lit_not_significant c H Hc)). reflexivity.
+  intros c p H. cbn [run]. destruct (N.eq_dec c 47) as [->|Hc].
+  - rewrite step_eq. vm_compute. reflexivity.
+  - rewrite (step_inert_char p c (lit_not_significant c H Hc)). reflexivity.
 Qed.
 
-(* every non-deciding token outside the known classes leaves the scanner at a boundary *)
-Definition tok_clear (g : bool) (t : token) : Prop :=
-  match t with
-  | TQuoted s => esc_pending false s = false
-  | TFill c => fill_significant c = false
-  | TLit c => g && (c =? 47) = false
-  | _ => True
-  end.
-
-Definition g_after (g : bool) (t : token) : bool :=
-  match t with TGeneral _ => true | _ => g end.
-
-Lemma run_other_tok : forall t g p, wf_tok t = true -> tok_kind t = Other -> tok_clear g t ->
-  exists p', run (B g p) (render_tok t) = Continue (B (g_after g t) p').
+(* every non-deciding token leaves the scanner at a boundary *)
+Lemma run_other_tok : forall t p, wf_tok t = true -> tok_kind t = Other ->
+  exists p', run (B p) (render_tok t) = Continue (B p').
 Proof.
-  intros t g p Hwf Hk Hc. destruct t; cbn [tok_kind] in Hk; try discriminate Hk;
-    cbn [render_tok g_after tok_clear wf_tok] in *.
+  intros t p Hwf Hk. destruct t; cbn [tok_kind] in Hk; try discriminate Hk;
+    cbn [render_tok wf_tok] in *.
   - (* TDigit *) apply run_inert_list. destruct p0; reflexivity.
   - (* TLit *) exists c. apply run_lit; assumption.
   - (* TGeneral *) apply run_general.
@@ -522,60 +504,46 @@ Proof.
   - (* TAt *) apply run_inert_list. reflexivity.
   - (* TEsc *) exists c. apply run_esc_pair. reflexivity.
   - (* TPad *) exists c. apply run_esc_pair. reflexivity.
-  - (* TFill *) apply run_inert_list. unfold inert_list. cbn [forallb]. rewrite Hc. reflexivity.
-  - (* TQuoted *) exists 34. apply run_quoted; [|exact Hc]. apply negb_true_iff. exact Hwf.
+  - (* TFill *) exists c. apply run_esc_pair. reflexivity.
+  - (* TQuoted *) exists 34. apply run_quoted. apply negb_true_iff. exact Hwf.
   - (* TColour *) destruct (colour_content c ups Hwf) as (c1 & rest & E & Hns & Hel).
-    exists 93. exact (run_prefix_bracket (TColour c ups) g p c1 rest E Hns Hel).
+    exists 93. exact (run_prefix_bracket (TColour c ups) p c1 rest E Hns Hel).
   - (* TCond *) destruct (cond_content op num Hwf) as (c1 & rest & E & Hns & Hel).
-    exists 93. exact (run_prefix_bracket (TCond op num) g p c1 rest E Hns Hel).
+    exists 93. exact (run_prefix_bracket (TCond op num) p c1 rest E Hns Hel).
   - (* TLocale *) destruct (locale_content cur lcid Hwf) as (c1 & rest & E & Hns & Hel).
-    exists 93. exact (run_prefix_bracket (TLocale cur lcid) g p c1 rest E Hns Hel).
+    exists 93. exact (run_prefix_bracket (TLocale cur lcid) p c1 rest E Hns Hel).
   - (* TSecFrac *) apply run_inert_list.
     change (46 :: repeat 48 (S n)) with ([46] ++ repeat 48 (S n)).
     unfold inert_list. rewrite forallb_app. apply andb_true_iff. split; [reflexivity|].
     apply inert_list_repeat. reflexivity.
 Qed.
 
-(* from known_section = None: the token is clear and the rest is clear under the new flag *)
-Lemma known_section_other : forall t r g, tok_kind t = Other ->
-  known_section g (t :: r) = None ->
-  tok_clear g t /\ known_section (g_after g t) r = None.
-Proof.
-  intros t r g Hk H. destruct t; cbn [tok_kind] in Hk; try discriminate Hk;
-    cbn [known_section tok_clear g_after] in *; try (split; [exact I|exact H]).
-  - (* TLit *) destruct (g && (c =? 47)); [discriminate H|]. split; [reflexivity|exact H].
-  - (* TFill *) destruct (fill_significant c); [discriminate H|]. split; [reflexivity|exact H].
-  - (* TQuoted *) destruct (esc_pending false s); [discriminate H|]. split; [reflexivity|exact H].
-Qed.
-
 (* ===================================================================================== *)
 (** * 4. Sections and whole formats *)
 
-Lemma run_section : forall s g p, wf_section s = true -> known_section g s = None ->
+Lemma run_section : forall s p, wf_section s = true ->
   forall tail,
     match classify_section s with
-    | Other => exists g' p', run (B g p) (render_section s ++ tail) = run (B g' p') tail
-    | k => run (B g p) (render_section s ++ tail) = Return k
+    | Other => exists p', run (B p) (render_section s ++ tail) = run (B p') tail
+    | k => run (B p) (render_section s ++ tail) = Return k
     end.
 Proof.
-  induction s as [|t r IH]; intros g p Hwf Hkn tail.
-  - cbn. exists g, p. reflexivity.
+  induction s as [|t r IH]; intros p Hwf tail.
+  - cbn. exists p. reflexivity.
   - unfold wf_section in Hwf. cbn [forallb] in Hwf. apply andb_true_iff in Hwf.
     destruct Hwf as [Hwt Hwr].
     change (render_section (t :: r)) with (render_tok t ++ render_section r).
     rewrite <- app_assoc.
     destruct (tok_kind t) eqn:Hk.
     + (* not a deciding token *)
-      destruct (known_section_other t r g Hk Hkn) as [Hc Hr].
-      destruct (run_other_tok t g p Hwt Hk Hc) as [p' Hrun].
+      destruct (run_other_tok t p Hwt Hk) as [p' Hrun].
       rewrite (run_app_continue _ _ _ _ Hrun).
       cbn [classify_section]. rewrite Hk.
       apply IH; assumption.
     + (* date/time token *)
       cbn [classify_section]. rewrite Hk.
       destruct t; cbn [tok_kind] in Hk; try discriminate Hk.
-      * apply run_date. cbn [known_section] in Hkn.
-        destruct g; [|left; reflexivity]. destruct l; try discriminate Hkn. right; reflexivity.
+      * apply run_date.
       * apply run_ampm.
       * apply run_ap.
     + (* elapsed token *)
@@ -584,66 +552,56 @@ Proof.
       apply run_app_return. apply run_elapsed.
 Qed.
 
-Lemma step_semicolon : forall g p, step (B g p) 59 = Return Other.
+Lemma step_semicolon : forall p, step (B p) 59 = Return Other.
 Proof. reflexivity. Qed.
 
 (* the first section decides; whatever follows the first top-level ';' is irrelevant *)
 Theorem scanner_first_section_only : forall s rest,
-  wf_section s = true -> known_section false s = None ->
+  wf_section s = true ->
   detect (render_section s) = classify_section s /\
   detect (render_section s ++ 59 :: rest) = classify_section s.
 Proof.
-  intros s rest Hwf Hkn. unfold detect, init. change (mkSt false false 0 32 false false) with (B false 32).
+  intros s rest Hwf. unfold detect, init. change (mkSt false false 0 32 false false) with (B 32).
   split.
-  - pose proof (run_section s false 32 Hwf Hkn []) as H. rewrite app_nil_r in H.
+  - pose proof (run_section s 32 Hwf []) as H. rewrite app_nil_r in H.
     destruct (classify_section s); [|rewrite H; reflexivity|rewrite H; reflexivity].
-    destruct H as (g' & p' & H). rewrite H. reflexivity.
-  - pose proof (run_section s false 32 Hwf Hkn (59 :: rest)) as H.
+    destruct H as (p' & H). rewrite H. reflexivity.
+  - pose proof (run_section s 32 Hwf (59 :: rest)) as H.
     destruct (classify_section s); [|rewrite H; reflexivity|rewrite H; reflexivity].
-    destruct H as (g' & p' & H). rewrite H. cbn [run]. rewrite step_semicolon. reflexivity.
+    destruct H as (p' & H). rewrite H. cbn [run]. rewrite step_semicolon. reflexivity.
 Qed.
 
-(* C10, string half: on every well-formed derivation of the number-format grammar outside the
-   known classes the scanner returns the kind of the first deciding token of the first section *)
+(* C10, string half: on every well-formed derivation of the number-format grammar the scanner
+   returns the kind of the first deciding token of the first section *)
 Theorem scanner_agrees_with_grammar : forall a,
-  wf a = true -> known_C10 a = None -> detect (render a) = classify a.
+  wf a = true -> detect (render a) = classify a.
 Proof.
-  intros [|s rest] Hwf Hkn; [reflexivity|].
+  intros [|s rest] Hwf; [reflexivity|].
   unfold wf in Hwf. cbn [forallb] in Hwf. apply andb_true_iff in Hwf. destruct Hwf as [Hs _].
-  cbn [known_C10] in Hkn. cbn [classify].
+  cbn [classify].
   destruct rest as [|s2 rest].
-  - cbn [render]. apply (scanner_first_section_only s [] Hs Hkn).
+  - cbn [render]. apply (scanner_first_section_only s [] Hs).
   - change (render (s :: s2 :: rest)) with (render_section s ++ 59 :: render (s2 :: rest)).
-    apply (scanner_first_section_only s (render (s2 :: rest)) Hs Hkn).
+    apply (scanner_first_section_only s (render (s2 :: rest)) Hs).
 Qed.
 
 (* ===================================================================================== *)
-(** * 5. Known classes: each is inhabited by a derivation on which the scanner is wrong *)
+(** * 5. The derivations on which the scanner used to deviate (fixed by ac433ce, c5a918f,
+       a61713f) now satisfy the specification *)
 
-(* 1: "wk_"dd — the '_' inside the quoted literal swallows the closing quote *)
-Definition witness_quote_escape : ast := [[TQuoted [119; 107; 95]; TDate LD 1 []]].
-Lemma refuted_quote_escape :
-  wf witness_quote_escape = true /\ known_C10 witness_quote_escape = Some 1 /\
-  render witness_quote_escape = [34; 119; 107; 95; 34; 100; 100] /\
-  detect (render witness_quote_escape) = Other /\ classify witness_quote_escape = DateTime.
-Proof. vm_compute. repeat split. Qed.
+Definition former_witnesses : list ast :=
+  [ [[TQuoted [119; 107; 95]; TDate LD 1 []]];            (* DQ wk_ DQ dd *)
+    [[TQuoted [97; 92]; TDate LD 0 []]];                   (* DQ a\ DQ d *)
+    [[TDigit PZero; TFill 100]];                           (* 0*d *)
+    [[TFill 34; TDate LD 1 []]]; [[TFill 59; TDate LD 1 []]]; [[TFill 92; TDate LD 0 []]];
+    [[TGeneral [true]; TLit 47]];                          (* General/ *)
+    [[TGeneral [true]; TLit 32; TDate LY 1 []]] ].         (* General yy *)
 
-(* 2: 0*d — the fill character d is read as a day token *)
-Definition witness_fill : ast := [[TDigit PZero; TFill 100]].
-Lemma refuted_fill :
-  wf witness_fill = true /\ known_C10 witness_fill = Some 2 /\
-  render witness_fill = [48; 42; 100] /\
-  detect (render witness_fill) = DateTime /\ classify witness_fill = Other.
-Proof. vm_compute. repeat split. Qed.
-
-(* 3: General/ and General yy — the 'a' of General sets the AM/PM flag for the rest of the section *)
-Definition witness_general_slash : ast := [[TGeneral [true]; TLit 47]].
-Definition witness_general_date : ast := [[TGeneral [true]; TLit 32; TDate LY 1 []]].
-Lemma refuted_general :
-  wf witness_general_slash = true /\ known_C10 witness_general_slash = Some 3 /\
-  detect (render witness_general_slash) = DateTime /\ classify witness_general_slash = Other /\
-  wf witness_general_date = true /\ known_C10 witness_general_date = Some 3 /\
-  detect (render witness_general_date) = Other /\ classify witness_general_date = DateTime.
+Lemma former_witnesses_agree :
+  forallb wf former_witnesses = true /\
+  map (fun a => detect (render a)) former_witnesses = map classify former_witnesses /\
+  map classify former_witnesses =
+    [DateTime; DateTime; Other; DateTime; DateTime; DateTime; Other; DateTime].
 Proof. vm_compute. repeat split. Qed.
 
 (* ===================================================================================== *)
@@ -747,6 +705,7 @@ Proof.
   rewrite E. reflexivity.
 Qed.
 
+
 (* ===================================================================================== *)
 (** * 7. Style plumbing *)
 
@@ -811,81 +770,19 @@ Definition xfs_present (t : style_table) : Prop := forall o, In o (xfs t) -> o <
    5-8, 23-26, 41-44, 63-66, 164-382; the hypothesis below is all that is needed of it *)
 Definition customs_off_builtin_dates (t : style_table) : Prop :=
   forall e, In e (customs t) -> ecma_builtin (fst e) = Other.
-
-(* XML escaping of the format code *)
-Definition xml_plain (s : list N) : bool := forallb (fun c => negb (xml_special c)) s.
-
-Lemma xml_escape_plain : forall s, xml_plain s = true -> xml_escape s = s.
+Theorem xlsx_styles_resolve : forall t, ids_below (2 ^ 32) t -> codes_nonempty t ->
+  xlsx_read_styles (enc_xlsx t) = spec_formats t.
 Proof.
-  induction s as [|c s IH]; intros H; [reflexivity|].
-  unfold xml_plain in H. cbn [forallb] in H. apply andb_true_iff in H. destruct H as [Hc Hs].
-  unfold xml_escape. cbn [flat_map]. fold (xml_escape s). rewrite (IH Hs).
-  unfold xml_special, mem in Hc. cbn [existsb] in Hc. unfold xml_escape_char.
-  replace (c =? 38) with false by lia. replace (c =? 60) with false by lia.
-  replace (c =? 34) with false by lia. replace (c =? 62) with false by lia. reflexivity.
-Qed.
-
-Lemma split_at_special_spec : forall s pre post, split_at_special s = (pre, post) ->
-  s = pre ++ post /\ xml_plain pre = true.
-Proof.
-  induction s as [|c s IH]; intros pre post H; cbn [split_at_special] in H.
-  - inversion H. split; reflexivity.
-  - destruct (xml_special c) eqn:Ec.
-    + inversion H. split; reflexivity.
-    + destruct (split_at_special s) as [a b0] eqn:E. inversion H; subst.
-      destruct (IH a post eq_refl) as [H1 H2]. split; [cbn [app]; rewrite <- H1; reflexivity|].
-      unfold xml_plain in *. cbn [forallb]. rewrite Ec, H2. reflexivity.
-Qed.
-
-Lemma detect_xml_escape : forall s, known_xlsx_code s = None -> detect (xml_escape s) = detect s.
-Proof.
-  intros s H. unfold known_xlsx_code in H. destruct (split_at_special s) as [pre post] eqn:E.
-  destruct (split_at_special_spec s pre post E) as [-> Hp].
-  unfold xml_escape. rewrite flat_map_app. fold (xml_escape pre) (xml_escape post).
-  rewrite (xml_escape_plain pre Hp). unfold detect.
-  destruct post as [|c post].
-  - reflexivity.
-  - destruct (run init pre) as [q|f] eqn:R; [discriminate H|].
-    rewrite !(run_app_return pre _ init f R). reflexivity.
-Qed.
-
-Lemma xml_escape_nonempty : forall s, s <> [] -> nonempty (xml_escape s) = true.
-Proof.
-  intros [|c s] H; [congruence|]. unfold xml_escape. cbn [flat_map]. unfold xml_escape_char.
-  destruct (c =? 38); [reflexivity|]. destruct (c =? 60); [reflexivity|].
-  destruct (c =? 34); [reflexivity|]. destruct (c =? 62); reflexivity.
-Qed.
-
-Lemma assoc_last_map_kv : forall (f : list N -> list N) (l : list (N * list N)) k, k < 10 ^ 20 ->
-  (forall e, In e l -> fst e < 10 ^ 20) ->
-  assoc_last bytes_eqb (decimal k) (map (fun e => (decimal (fst e), f (snd e))) l) =
-  option_map f (assoc_last N.eqb k l).
-Proof.
-  intros f. induction l as [|[k' v] l IH]; intros k Hk Hl; [reflexivity|].
-  cbn [map assoc_last fst snd]. rewrite IH; [|exact Hk|intros e He; apply Hl; right; exact He].
-  destruct (assoc_last N.eqb k l); [reflexivity|]. cbn [option_map].
-  rewrite bytes_eqb_decimal; [|exact Hk|apply (Hl (k', v)); left; reflexivity].
-  destruct (k =? k'); reflexivity.
-Qed.
-
-(* xlsx: the format vector entry of one cell XF, outside class 6 *)
-Theorem xlsx_styles_resolve_at : forall t i fmt, ids_below (2 ^ 32) t -> codes_nonempty t ->
-  nth_error (xfs t) i = Some fmt -> known_xlsx_fmt t fmt = None ->
-  nth_error (xlsx_read_styles (enc_xlsx t)) i = Some (resolve t fmt).
-Proof.
-  intros t i fmt [Hc Hx] Hne Hn Hk. unfold xlsx_read_styles, enc_xlsx. cbn [xs_numfmts xs_cellxfs].
+  intros t [Hc Hx] Hne. unfold xlsx_read_styles, enc_xlsx, spec_formats. cbn [xs_numfmts xs_cellxfs].
   rewrite filter_all.
   2:{ intros x Hin. apply in_map_iff in Hin. destruct Hin as (e & <- & He). cbn [snd].
-      apply xml_escape_nonempty. exact (Hne e He). }
-  rewrite map_map. erewrite map_nth_error; [|exact Hn]. f_equal.
-  destruct fmt as [id|]; cbn [option_map resolve]; [|reflexivity].
+      specialize (Hne e He). destruct (snd e); [congruence|reflexivity]. }
+  rewrite map_map. apply map_ext_in. intros [i|] Hin; cbn [option_map resolve]; [|reflexivity].
   assert (B32 : 2 ^ 32 < 10 ^ 20) by (vm_compute; reflexivity).
-  assert (Hid : id < 2 ^ 32) by (apply Hx; eapply nth_error_In; exact Hn).
-  rewrite assoc_last_map_kv; [|lia|intros e He; specialize (Hc e He); lia].
-  cbn [known_xlsx_fmt] in Hk.
-  destruct (assoc_last N.eqb id (customs t)) as [s|]; cbn [option_map].
-  - apply detect_xml_escape. exact Hk.
-  - apply by_id_decimal_ecma.
+  rewrite assoc_last_map_key.
+  - destruct (assoc_last N.eqb i (customs t)); [reflexivity|apply by_id_decimal_ecma].
+  - specialize (Hx i Hin). lia.
+  - intros e He. specialize (Hc e He). lia.
 Qed.
 
 Theorem xls_styles_resolve : forall t, ids_below 65536 t -> xfs_present t ->
@@ -923,16 +820,13 @@ Lemma spec_cell_meaning : forall k is_1904 v,
 Proof.
   intros [] is_1904 [b|z]; cbn; repeat split; try congruence; try discriminate; intros; try discriminate.
 Qed.
-
 Theorem xlsx_cell_spec : forall formats is_1904 s_attr bits k,
   nth_error formats (N.to_nat (match s_attr with Some i => i | None => 0 end)) = Some k ->
-  known_xlsx_cell formats s_attr = None ->
   xlsx_cell_number formats is_1904 s_attr bits = spec_cell k is_1904 (NF bits).
 Proof.
-  intros formats is_1904 [i|] bits k Hn Hk; unfold xlsx_cell_number.
+  intros formats is_1904 [i|] bits k Hn; unfold xlsx_cell_number.
   - rewrite Hn. destruct k; reflexivity.
-  - unfold known_xlsx_cell in Hk. change (N.to_nat 0) with 0%nat in Hn. rewrite Hn in Hk.
-    destruct k; try discriminate Hk. reflexivity.
+  - change (N.to_nat 0) with 0%nat in Hn. rewrite Hn. destruct k; reflexivity.
 Qed.
 
 Theorem xls_cell_spec : forall formats is_1904 ixfe v k,
@@ -945,11 +839,10 @@ Qed.
 
 Theorem xls_formula_spec : forall formats is_1904 ixfe bits k,
   nth_error formats (N.to_nat ixfe) = Some k ->
-  known_xls_formula formats ixfe = None ->
   xls_formula_number formats is_1904 ixfe bits = spec_cell k is_1904 (NF bits).
 Proof.
-  intros formats is_1904 ixfe bits k Hn Hk. unfold known_xls_formula in Hk. rewrite Hn in Hk.
-  destruct k; try discriminate Hk. reflexivity.
+  intros formats is_1904 ixfe bits k Hn. unfold xls_formula_number. rewrite Hn.
+  destruct k; reflexivity.
 Qed.
 
 Theorem xlsb_cell_spec : forall formats is_1904 style_ref v k,
@@ -964,18 +857,11 @@ Qed.
 Theorem date_iff_style_xlsx : forall t is_1904 s_attr bits fmt,
   ids_below (2 ^ 32) t -> codes_nonempty t ->
   nth_error (xfs t) (N.to_nat (match s_attr with Some i => i | None => 0 end)) = Some fmt ->
-  known_xlsx_fmt t fmt = None ->
-  known_xlsx_cell (spec_formats t) s_attr = None ->
   xlsx_cell_number (xlsx_read_styles (enc_xlsx t)) is_1904 s_attr bits =
   spec_cell (resolve t fmt) is_1904 (NF bits).
 Proof.
-  intros t is_1904 s_attr bits fmt Hb Hne Hn Hf Hk. unfold xlsx_cell_number.
-  destruct s_attr as [i|].
-  - rewrite (xlsx_styles_resolve_at t (N.to_nat i) fmt Hb Hne Hn Hf).
-    destruct (resolve t fmt); reflexivity.
-  - unfold known_xlsx_cell, spec_formats in Hk. change (N.to_nat 0) with 0%nat in Hn.
-    rewrite (map_nth_error (resolve t) 0 (xfs t) Hn) in Hk.
-    destruct (resolve t fmt); try discriminate Hk. reflexivity.
+  intros t is_1904 s_attr bits fmt Hb Hne Hn. rewrite xlsx_styles_resolve by assumption.
+  apply xlsx_cell_spec. unfold spec_formats. apply map_nth_error. exact Hn.
 Qed.
 
 Theorem date_iff_style_xls : forall t is_1904 ixfe v fmt,
@@ -997,60 +883,35 @@ Proof.
   apply xlsb_cell_spec. unfold spec_formats. apply map_nth_error. exact Hn.
 Qed.
 
+(* the resolved format of a custom entry written from a grammar derivation is its classification *)Theorem date_iff_style_xls_formula : forall t is_1904 ixfe bits fmt,
+  ids_below 65536 t -> xfs_present t ->
+  nth_error (xfs t) (N.to_nat ixfe) = Some fmt ->
+  xls_formula_number (xls_formats (enc_biff t)) is_1904 ixfe bits =
+  spec_cell (resolve t fmt) is_1904 (NF bits).
+Proof.
+  intros t is_1904 ixfe bits fmt Hb Hp Hn. rewrite xls_styles_resolve by assumption.
+  apply xls_formula_spec. unfold spec_formats. apply map_nth_error. exact Hn.
+Qed.
+
 (* the resolved format of a custom entry written from a grammar derivation is its classification *)
 Theorem resolve_custom_classify : forall t id a,
   assoc_last N.eqb id (customs t) = Some (render a) ->
-  wf a = true -> known_C10 a = None ->
+  wf a = true ->
   resolve t (Some id) = classify a.
 Proof.
-  intros t id a H Hwf Hk. cbn [resolve]. rewrite H. apply scanner_agrees_with_grammar; assumption.
+  intros t id a H Hwf. cbn [resolve]. rewrite H. apply scanner_agrees_with_grammar; assumption.
 Qed.
 
-(* plumbing classes are inhabited *)
-Lemma refuted_xlsx_default_style :
+(* the former plumbing witnesses (fixed by 4fe67c6, aa1af82) now satisfy the specification *)
+Lemma former_plumbing_witnesses_agree :
   let t := mkStyleTable [] [Some 14] in
-  ids_below (2 ^ 32) t /\ codes_nonempty t /\
-  known_xlsx_cell (spec_formats t) None = Some 4 /\
   xlsx_cell_number (xlsx_read_styles (enc_xlsx t)) false None 4631107791820423168 =
-    DFloat 4631107791820423168 /\
-  spec_cell (resolve t (Some 14)) false (NF 4631107791820423168) =
-    DDateTime 4631107791820423168 false false.
-Proof.
-  cbn zeta. split; [|split; [|split; [|split]]].
-  - split.
-    + intros e H. destruct H.
-    + intros i H. destruct H as [H|H]; [|destruct H]. inversion H. reflexivity.
-  - intros e H. destruct H.
-  - reflexivity.
-  - reflexivity.
-  - reflexivity.
-Qed.
-
-(* class 6: DQUOTE Week DQUOTE dd reaches the scanner as &quot;Week &quot;dd *)
-Lemma refuted_xlsx_escape :
-  let t := mkStyleTable [(164, [34; 87; 101; 101; 107; 32; 34; 100; 100])] [Some 164] in
-  ids_below (2 ^ 32) t /\ codes_nonempty t /\
-  known_xlsx_fmt t (Some 164) = Some 6 /\
-  xlsx_read_styles (enc_xlsx t) = [Other] /\ spec_formats t = [DateTime].
-Proof.
-  cbn zeta. split; [|split; [|split; [|split]]].
-  - split.
-    + intros e H. destruct H as [<-|[]]. reflexivity.
-    + intros i H. destruct H as [H|[]]. inversion H. reflexivity.
-  - intros e H. destruct H as [<-|[]]. discriminate.
-  - reflexivity.
-  - reflexivity.
-  - reflexivity.
-Qed.
-
-Lemma refuted_xls_formula :
-  let t := mkStyleTable [] [Some 14] in
-  known_xls_formula (xls_formats (enc_biff t)) 0 = Some 5 /\
+    spec_cell (resolve t (Some 14)) false (NF 4631107791820423168) /\
   xls_formula_number (xls_formats (enc_biff t)) false 0 4631107791820423168 =
-    DFloat 4631107791820423168 /\
+    spec_cell (resolve t (Some 14)) false (NF 4631107791820423168) /\
   spec_cell (resolve t (Some 14)) false (NF 4631107791820423168) =
     DDateTime 4631107791820423168 false false.
-Proof. vm_compute. repeat split. Qed.
+Proof. cbn zeta. split; [reflexivity|]. split; reflexivity. Qed.
 
 (* xlsb: a custom entry on a built-in date id is ignored (outside customs_off_builtin_dates) *)
 Lemma xlsb_builtin_shadows_custom :
